@@ -86,6 +86,12 @@ class C01(C.PipelineCheck):
                                                tpl=C.HEADER + '#[derive(Serialize, Deserialize)]\npub struct Foo { #[serde(rename = "HOLE_r")] pub a: i32, pub b: bool }\n' + CMD + 'cmd(x: Foo) -> i32 { 0 }\n'))
             yield ('variant-rename/%d' % n, dict(kind='str', hole='r', n=n, alphabet='printable',
                                                  tpl=C.HEADER + '#[derive(Serialize, Deserialize)]\npub enum Kind { #[serde(rename = "HOLE_r")] A, B }\n' + CMD + 'cmd(x: Kind) -> i32 { 0 }\n'))
+        # rename values outside ASCII: letters, symbols, numerics that are not identifier characters (superscripts), spaces
+        for n in ((1, 2) if q else (1, 2, 3)):
+            yield ('field-rename-utf8/%d' % n, dict(kind='utf8', hole='r', n=n,
+                                                    tpl=C.HEADER + '#[derive(Serialize, Deserialize)]\npub struct Foo { #[serde(rename = "HOLE_r")] pub a: i32, pub b: bool }\n' + CMD + 'cmd(x: Foo) -> i32 { 0 }\n'))
+            yield ('variant-rename-utf8/%d' % n, dict(kind='utf8', hole='r', n=n,
+                                                      tpl=C.HEADER + '#[derive(Serialize, Deserialize)]\npub enum Kind { #[serde(rename = "HOLE_r")] A, B }\n' + CMD + 'cmd(x: Kind) -> i32 { 0 }\n'))
         for ra in ('lowercase', 'UPPERCASE', 'PascalCase', 'camelCase', 'snake_case', 'SCREAMING_SNAKE_CASE', 'kebab-case', 'SCREAMING-KEBAB-CASE'):
             for n in (1, 3) if q else (1, 2, 3, 4, 5):
                 yield ('rename-all/%s/%d' % (ra, n), dict(kind='ident', hole='f', n=n,
